@@ -41,7 +41,13 @@ fn splitmix(mut x: u64) -> u64 {
     z ^ (z >> 31)
 }
 
+extern "C" {
+    fn alarm(seconds: u32) -> u32;
+}
+
 fn main() {
+    // never outlive the driver by much: an orphaned churn process would burn cores for ever
+    unsafe { alarm(600) };
     let mut txt = String::new();
     std::io::stdin().read_to_string(&mut txt).unwrap();
     let case: Case = serde_json::from_str(&txt).expect("case json");
